@@ -91,6 +91,7 @@ def run(out: common.Outcome, explore: int = 0) -> None:
     from pathlib import Path as _Path
     lpool = [_json.loads(l) for l in (_Path(__file__).resolve().parent / "pool" / "L.jsonl").read_text().splitlines() if l.strip()]
     recs = recs + L.select(lpool, out.seed + 1, out.tier, 100)
+    recs = recs + [r for r in L.load_corpus_pool() if has_loop(r["d"])]      # the loop cases of the corpus
     variants = (0, 4) if quick else (0, 1, 4, 5)
     items = []
     for rec in recs:
